@@ -2407,7 +2407,11 @@ class HTTPChannel(basic.LineReceiver, policies.TimeoutMixin):
         # line headers.
         else:
             if self.__header:
-                self.headerReceived(self.__header)
+                ok = self.headerReceived(self.__header)
+                # If the header we just got is invalid, we MUST NOT proceed
+                # with processing. We'll have sent a 400 anyway, so just stop.
+                if not ok:
+                    return
             self.__header = line
 
     def _finishRequestBody(self, data):
